@@ -19,6 +19,8 @@ Layers (DESIGN §7 C09, design_notes/C09.md):
   5. reference matches (phase 5): every real registration of a head on `match $ref.M()` / `$e.action.M()` ... is re-computed by
      Models/RefName.lean::nameOf from the referent observed at that moment (driver op C09.refname) — `compare_refnames`; the
      oracle's scan takes the waited name from `get_event_from_element` evaluated on the CURRENT context.
+  6. object-by-NAME matches (wave 6): every real registration of a head on `match some_flow.M()` / `match SomeAction.M()` is
+     re-computed by Models/RefName.lean::nameOfSpec (cases 2 and 3 of the name function) — same driver op, same comparison.
 """
 import json
 import random
@@ -26,6 +28,7 @@ import signal
 
 from ..impl import corevm as cv
 from ..impl import corevm_gen as gen
+from ..impl import corevm_namegen as namegen
 from ..impl import corevm_refgen as refgen
 from ..impl import valjson as vj
 from ..translate import corevm as trvm
@@ -42,14 +45,18 @@ RULE = ("program: 1-5 generated Colang 2.x flows (match/send/start/await, and/or
         "else inside `when` conditions and groups), control events addressed through a flow reference (`send $ref.Stop()`, "
         "StopFlow / FinishFlow by flow_instance_uid), `deactivate`; ONE reference match statement reached several times with references of different kinds (harness/impl/corevm_refgen.py: "
         "generic helper flows over a `$ref` parameter used with actions of two types and flows, loops re-binding one variable, activated watcher flows "
-        "waiting on `$e.action.Finished()` / `$e.flow.Finished()` that restart, parametrised flows, every member of the event-name maps; outgoing events echoed as input). non-trivial = at least one event moved a head that was "
+        "waiting on `$e.action.Finished()` / `$e.flow.Finished()` that restart, parametrised flows, every member of the event-name maps; outgoing events echoed as input); "
+        "observer flows (harness/impl/corevm_namegen.py): every (flow by name / action by name / flow reference / action reference / bare event) x (every member of "
+        "FlowState._event_name_map and Action._event_name_map, plus members outside the maps) parked as match / group / when condition / in a loop / in an activated flow, "
+        "with a second flow that starts / awaits / stops / finishes / pauses the named flow or action (by name, by instance uid, through a reference). non-trivial = at least one event moved a head that was "
         "parked (index changed) AND the program has >=2 flow instances or a fork; distinct = distinct (program, history, seed).")
 TRUSTED_BASE = [
     "recorder harness/impl/corevm.py (monkey-patched setters / dict wrapper; appends only) and the pattern grouping `group_ops`",
     "Lean driver Drive/C09.lean (JSON codec) ; the repo's own parser + expand_elements produce the programs both sides run",
     "oracle harness/props/C09.py::oracle (from-scratch scan written from the property statement; the name a parked match waits for is "
     "taken from get_event_from_element on the current context, the function the dispatcher compares incoming events with)",
-    "recorder wrapper of _add_head_to_event_matching_structures (referent class / type as seen at the registration; appends only)",
+    "recorder wrapper of _add_head_to_event_matching_structures (referent class / type as seen at the registration; for an object given by name: "
+    "spec type, name, member names, whether the name is a key of state.flow_configs; appends only)",
 ]
 ASSUMPTIONS = [
     "uuid4 uids are fresh and head uids have fixed length (reverse-map key flow_uid+head_uid modelled as a pair)",
@@ -265,6 +272,9 @@ def gen_cases(rng, tier):
     # one match statement over a reference reached several times with references of different kinds (second instance of a
     # generic helper flow, next loop iteration, restart of an activated flow): harness/impl/corevm_refgen.py
     cases.extend(refgen.cases(rng, tier))
+    # observer flows: a match over a member event of an object given by NAME / by reference / as a bare event, for every member of
+    # the two event-name maps, next to a second flow that causes the event: harness/impl/corevm_namegen.py
+    cases.extend(namegen.cases(rng, tier))
     return cases
 
 
@@ -632,7 +642,8 @@ def model_requests(case, obs):
         reqs.append({"m": "C09.run", "prog": obs["prog"], "events": evs, "fuel": 300})
     # every registration of a head on a reference match (`match $ref.Finished()`, `$e.action.Finished()` ...): the name is
     # re-computed by Models/RefName.lean::nameOf from the referent observed at that moment
-    items = [{"var": r["var"], "members": r["members"], "obj": r["obj"]} for st in obs["steps"] for r in st.get("refregs", [])]
+    # (and, wave 6, on a flow / action given by NAME: `nameOfSpec`, cases 2 and 3)
+    items = [{k: r.get(k) for k in ("var", "members", "obj", "name", "type", "known", "change_args") if k in r} for st in obs["steps"] for r in st.get("refregs", [])]
     if items:
         reqs.append({"m": "C09.refname", "items": items})
     return reqs
@@ -765,12 +776,17 @@ def compare_refnames(case, obs, res):
         return f"C09.refname driver failed: {str(res)[:200]}"
     obs["_refnames"] = len(regs)
     for (n, r), m in zip(regs, res):
-        where = f"step {n}: head {r['key']} reached `match ${r['var']}{''.join('.' + x for x in (r['members'] or []))}` at {r['flow_id']}:{r['pos']} holding {json.dumps(r['obj'])[:120]}"
+        what = ("$" + r["var"]) if r.get("var") else f"{r.get('name')} [{r.get('type')} by name]"
+        where = f"step {n}: head {r['key']} reached `match {what}{''.join('.' + x for x in (r['members'] or []))}` at {r['flow_id']}:{r['pos']} holding {json.dumps(r['obj'])[:120]}"
         if "raise" in r:
             if m.get("err") != r["raise"]:
                 return f"{where}: the interpreter raised {r['raise']} but the model says {m}"
         elif m.get("ok") != r.get("bucket"):
             return f"{where}: filed under {r.get('bucket')!r} but the model names {m}"
+        # the dispatcher's side (`get_event_from_element`, Models/RefName.lean::dispatchNameOfSpec): same name, or both cannot name it
+        d = m.get("dispatch") or {}
+        if "dispatch" in r and (d.get("ok") if r["dispatch"] != "!raise" else ("!raise" if "err" in d else d.get("ok"))) != r["dispatch"]:
+            return f"{where}: the dispatcher (get_event_from_element) names {r['dispatch']!r} but the model says {d}"
     return None
 
 
@@ -862,7 +878,10 @@ def check_snapshot(snap):
             wrong = [e for e in renamed if reg.get(tuple(e[1])) != e[0]]
             if wrong:
                 e = wrong[0]
-                bad.append(("index-name-wrong-at-registration", f"head {e[1]} is filed under {e[0]!r} but its match element names {by_key_w[tuple(e[1])]!r} "
+                names_now = by_key_w[tuple(e[1])]
+                names_txt = ("NO event (the dispatcher's get_event_from_element raises for it even without its argument expressions: a head must not stay parked there)"
+                             if names_now == "!raise" else repr(names_now))
+                bad.append(("index-name-wrong-at-registration", f"head {e[1]} is filed under {e[0]!r} but its match element names {names_txt} "
                             f"(and named {reg.get(tuple(e[1]))!r} when the head was registered there; None = never registered at this position): "
                             f"the event of that name never reaches the head"))
             else:
@@ -1076,6 +1095,10 @@ def tags(case, obs):
             t.append("tie-break")
     t.append("stmt-names-max:" + str(obs.get("stmt_names_max", 0)))
     t.append("refname-registrations:" + str(min(50, obs.get("_refnames", 0) // 5 * 5)))
+    for st in obs["steps"]:
+        for r in st.get("refregs", []):
+            if not r.get("var"):
+                t.append("byname-reg:" + str(r.get("type")) + ":" + str((r.get("members") or ["?"])[0]) + ":" + (r.get("bucket") or ("raise-" + str(r.get("raise")))))
     t.extend("stmt-multi-name-in:" + f for f in obs.get("stmt_multi", []))
     nb = sum(len(st.get("loops", [])) for st in obs["steps"])
     t.append("loop-boundaries:" + str(min(2000, nb // 50 * 50)))
@@ -1107,4 +1130,5 @@ def escalate(rng, case, tier):
             out.append(dict(case, history=_history_x(rng, rng.randrange(2, 30)), tie_seed=rng.randrange(1 << 30)))
     out.extend(_extra_cases(rng, "quick"))
     out.extend(refgen.cases(rng, "quick"))
+    out.extend(namegen.cases(rng, "quick"))
     return out
